@@ -164,3 +164,14 @@ pub fn teardown() -> impl Strategy<Value = Teardown> {
     (proptest::collection::vec(any::<u16>(), 1..24), proptest::collection::vec(proptest::bool::weighted(0.2), 1..8), 0u8..3, proptest::option::weighted(0.5, (0u8..=3, 0u8..4)), any::<bool>(), any::<bool>(), proptest::bool::weighted(0.2))
         .prop_map(|(priorities, on_thread, extra_sq, pool, wake_after, inline_on_flush, refuse_unregister)| Teardown { priorities, on_thread, extra_sq, pool, wake_after, inline_on_flush, refuse_unregister })
 }
+
+/// A PCT schedule: initial priority order and up to `max_changes` change
+/// points among the first `horizon` scheduling points.
+pub fn pct(max_changes: usize, horizon: u16) -> impl Strategy<Value = crate::sched::Pct> {
+    (any::<u16>(), proptest::collection::vec(0..horizon, 0..=max_changes)).prop_map(|(order, changes)| crate::sched::Pct { order, changes })
+}
+
+/// Half of the scheduled cases follow a PCT schedule, half a choice tape.
+pub fn maybe_pct(max_changes: usize, horizon: u16) -> impl Strategy<Value = Option<crate::sched::Pct>> {
+    proptest::option::weighted(0.5, pct(max_changes, horizon))
+}
